@@ -75,14 +75,18 @@ _globals_cache = {}
 
 def load_globals(prog, tags=''):
     if tags not in _globals_cache:
-        _globals_cache[tags] = G.GlobalLoader(G.dump_globals(prog, workdir(), REPO, tags=tags))
+        _globals_cache[tags] = G.GlobalLoader(G.dump_globals(prog, workdir(), REPO, tags=tags), prog)
     return _globals_cache[tags]
 
 
-def new_machine(prog, ctx, gl=None):
+DEMONT = {'secp256k1montgomery.MontgomeryDomainFieldElement': P_FIELD,
+          'secp256k1montgomeryscalar.MontgomeryDomainFieldElement': N_ORDER}
+
+
+def new_machine(prog, ctx, gl=None, value_model=False):
     m = X.Machine(prog, ctx)
     if gl is not None:
-        gl.install(m)
+        gl.install(m, demont=DEMONT if value_model else None)
     std = {}
 
     def mkerr(name):
@@ -145,6 +149,40 @@ def load_known():
     return known
 
 
+_TASKS = None
+_PARENT = None
+
+
+def _run_task(arg):
+    i, quick_ms = arg
+    name, fn = _TASKS[i]
+    import traceback
+    sub = Check(_PARENT.pid, _PARENT.level)
+    sub.tier = _PARENT.tier
+    sub.t0 = _PARENT.t0
+    sub.quiet = True
+    try:
+        fn(sub)
+        out = []
+        for o in sub.obls:
+            if o.smt is None:
+                o.build()
+            if o.result is None:
+                smt.inprocess(o, quick_ms)
+            d = {k: getattr(o, k) for k in ('name', 'mode', 'exact', 'timeout', 'expect', 'meta', 'smt', 'hash', 'result',
+                                           'model', 'time', 'solver', 'trivial')}
+            d['msg'] = getattr(o, 'msg', '')
+            if o.result == o.expect:
+                d['smt'] = None  # decided: keep only the hash
+            out.append(d)
+        return {'name': name, 'obls': out, 'paths': sub.paths, 'path_queries': sub.path_queries,
+                'path_solver_time': sub.path_solver_time, 'funcs': sorted(sub.funcs), 'instrs': sub.instrs,
+                'bounds': sub.bounds, 'outside': sub.outside, 'stubs': sub.stubs, 'assumptions': sub.assumptions,
+                'notes': sub.notes, 'samples': sub.samples, 'log': getattr(sub, 'logbuf', [])}
+    except Exception:
+        return {'name': name, 'error': traceback.format_exc()}
+
+
 # --------------------------------------------------------------------- check driver
 class Check:
     def __init__(self, pid, level='model_checking'):
@@ -178,7 +216,12 @@ class Check:
         return self.tier == 'thorough'
 
     def log(self, *a):
-        print('[%s %6.1fs]' % (self.pid, time.time() - self.t0), *a, flush=True)
+        ln = '[%s %6.1fs] %s' % (self.pid, time.time() - self.t0, ' '.join(str(x) for x in a))
+        if getattr(self, 'quiet', False):
+            self.logbuf = getattr(self, 'logbuf', [])
+            self.logbuf.append(ln)
+        else:
+            print(ln, flush=True)
 
     def add(self, name, pc, goal, **kw):
         o = smt.Obligation(name, pc, goal, **kw)
@@ -213,9 +256,52 @@ class Check:
             elif pr.outcome == 'unwind':
                 if not unwind_ok:
                     self.add('%s/unwinding-assertion#p%d' % (name, i), pr.pc, False, meta={'unwind': str(pr.value)}, **okw)
-        self.log('explored %s: %d paths, %d obligations, %.1fs (path solver %d queries)' % (
-            name, len(paths), n_ob, time.time() - t0, ex.psolver.queries))
+        if os.environ.get('VERIF_VERBOSE') or time.time() - t0 > 5:
+            self.log('explored %s: %d paths, %d obligations, %.1fs (path solver %d queries)' % (
+                name, len(paths), n_ob, time.time() - t0, ex.psolver.queries))
         return paths
+
+    # ------------------------------------------------------------------ parallel exploration
+    def run_tasks(self, tasks, jobs=None, quick_ms=4000):
+        """tasks: list of (name, fn) where fn(sub: Check) performs explore()/add() calls on a private
+        sub-check.  Tasks run in forked worker processes; each worker builds the SMT text of its
+        obligations, tries the in-process solver, and ships results (and still-open SMT problems) back."""
+        import multiprocessing as mp
+        jobs = jobs or self.jobs
+        global _TASKS, _PARENT
+        _TASKS = tasks
+        _PARENT = self
+        ctx = mp.get_context('fork')
+        with ctx.Pool(min(jobs, max(1, len(tasks)))) as pool:
+            for res in pool.imap_unordered(_run_task, [(i, quick_ms) for i in range(len(tasks))], chunksize=1):
+                self._merge(res)
+
+    def _merge(self, res):
+        if res.get('error'):
+            self.log('ENGINE-ERROR in task %s:\n%s' % (res['name'], res['error']))
+            self.engine_errors = getattr(self, 'engine_errors', 0) + 1
+            return
+        for od in res['obls']:
+            o = smt.Obligation(od['name'], [], None)
+            for k, v in od.items():
+                setattr(o, k, v)
+            self.obls.append(o)
+        self.paths += res['paths']
+        self.path_queries += res['path_queries']
+        self.path_solver_time += res['path_solver_time']
+        self.funcs |= set(res['funcs'])
+        self.instrs += res['instrs']
+        for b in res['bounds']:
+            if b not in self.bounds:
+                self.bounds.append(b)
+        for k in ('outside', 'stubs', 'assumptions', 'notes'):
+            for b in res[k]:
+                if b not in getattr(self, k):
+                    getattr(self, k).append(b)
+        self.samples += res['samples'][:2]
+        if res.get('log'):
+            for ln in res['log']:
+                print(ln, flush=True)
 
     def note_machine(self, m):
         self.funcs |= m.called
@@ -225,8 +311,8 @@ class Check:
         def lg(o):
             if o.result != o.expect:
                 self.log('  %s -> %s (%.1fs %s) %s' % (o.name, o.result, o.time, o.solver, (o.msg or '')[:200]))
-        todo = [o for o in self.obls if o.result is None]
-        self.log('discharging %d obligations' % len(todo))
+        todo = [o for o in self.obls if o.result is None or (o.result != o.expect and o.solver == 'z3py' and o.result == 'unknown')]
+        self.log('discharging %d obligations with the external portfolio (%d already decided in-process)' % (len(todo), len(self.obls) - len(todo)))
         smt.discharge(todo, jobs=max(1, self.jobs // len(portfolio)), portfolio=portfolio, workdir=workdir(), log=lg)
 
     def finish(self, replayer=None):
@@ -265,6 +351,9 @@ class Check:
             print(ln)
         for ln in viol_lines[:50]:
             print(ln)
+        if getattr(self, 'engine_errors', 0):
+            print('ENGINE-ERROR: %d task(s) failed inside the verification machinery; no verdict' % self.engine_errors)
+            sys.exit(3)
         ok = not viol_lines
         self.log('%s: %d obligations, %d discharged, %d violations, %.1fs' % (
             'PASS' if ok else 'FAIL', len(self.obls), len(self.obls) - len(failed), len(viol_lines), time.time() - self.t0))
